@@ -274,7 +274,8 @@ def between_comparer(comparer_params_eval, student_eval, utils):
     if not np.isreal(student_eval):
         raise InputTypeError("Input must be real.")
 
-    return start <= student_eval <= stop
+    # A real value may still be of complex type (e.g. i*i), which cannot be ordered
+    return start <= np.real(student_eval) <= stop
 
 def congruence_comparer(comparer_params_eval, student_eval, utils):
     """
